@@ -99,6 +99,86 @@ SEEDS = {
                                                  'first run ended in exit 2: GUI.__init__ is now interpreted and request histories were added (R20.4)'),
     'C20-noise-deformation-from-code-field': ('C20', 'error model built from code_deformation_name instead of noise_deformation_name',
                                               'biased noise with a noise deformation different from the code\'s', ''),
+
+    # ---------------------------------------------------------------- round 2 (a different mechanism per property)
+    'C02-from-bsf-reads-stored-indices': ('C02', 'from_bsf reads csr .indices instead of .nonzero(): explicitly stored zeros count as support',
+                                          'a sparse row produced by `m = a + b; m.data %= 2` on overlapping Paulis',
+                                          'missed at first: the sparse stand-in now models STORAGE (explicit zeros, index order) separately from values (R02.1, R03.2)'),
+    'C02-logicals-iterate-string-set': ('C02', 'Toric3DCode logicals built by iterating a module-level set of axis names: order depends on PYTHONHASHSEED',
+                                        'two processes with different hash seeds',
+                                        'missed at first: the hash-order rule now follows module-level and class-level sets (R02.3)'),
+    'C03-prod-through-hsplit-fast-path': ('C03', '_bs_prod_sparse routed through bsparse.hsplit, whose single-row fast path ignores stored values',
+                                          'a single sparse row holding explicit zeros', ''),
+    'C03-xz-blocks-cached-on-operand': ('C03', 'X/Z blocks of a sparse operand cached as an attribute of the operand: stale after bsparse.insert_mod2',
+                                        'product, in-place update of the row, product again',
+                                        'reported by the effect rules of C02/C04/C06 at first, C03 itself ended in exit 2: purity rule R03.5 added and rules now continue after one of them cannot complete'),
+    'C04-matrix-row-drops-x-bit-of-y': ('C04', 'stabilizer_matrix assembles one key per qubit: a Y in a generator contributes only its Z bit',
+                                        'a code whose generators contain Y (XY deformation)', 'reported by C02 R02.1 / C03 R03.2 (matrix rows are the BSF image)'),
+    'C04-deform-keeps-cached-logicals-z': ('C04', 'deform() resets a list of cached attributes that omits _logicals_z',
+                                           'read d or logicals_z, then deform the same object', 'reported by C08 R08.5 (deform resets every cached property)'),
+    'C05-matching-reused-output-buffer': ('C05', 'MatchingDecoder writes into one buffer allocated in __init__; SweepMatchDecoder accumulates into it in place',
+                                          'one SweepMatchDecoder decoding twice', 'reported by C06 R06.3 (persistent write during decode)'),
+    'C05-ldpc-decoders-memoised-per-code': ('C05', 'ldpc decoder objects built by an lru_cache function keyed on the code object: stale after code.deform()',
+                                            'deform the same code object again, then create a new decoder',
+                                            'missed at first: R05.5 added (nothing memoised per code object reads what deform() changes)'),
+    'C06-update-probabilities-inplace-on-cache': ('C06', 'vectorised update_probabilities does `p_same += py` on the arrays held by the lru_cache',
+                                                  'channel_update=True, CSS code, r_y != 0, second decode',
+                                                  'caught by R06.2; C07 R07.7 first reported it for a wrong reason (and a CORRECT vectorised rewrite was a false alarm): masks, np.where, out=/where= modelled, lost values are undecided'),
+    'C06-sweep-conditional-copy-inplace': ('C06', 'get_initial_state copies the syndrome only when the vertex sector is non-zero; sweep_move flips in place',
+                                           'pure-Z syndrome', ''),
+    'C07-noise-eq-by-label': ('C07', 'PauliErrorModel.__eq__/__hash__ by label: two models differing in deformation_kwargs share the lru_cache entry',
+                              'two instances with equal label, different deformation axis, same code and rate', ''),
+    'C07-bposd-joint-prior-order': ('C07', 'non-CSS BP-OSD prior stacked [x | z] instead of [z | x]', 'deformed (non-CSS) code and r_x != r_z', ''),
+    'C08-deformation-lookup-per-axis': ('C08', 'noise-side deformation looked up once per qubit axis instead of per qubit',
+                                        'a deformation that depends on position (checkerboard, colour codes)', ''),
+    'C08-deform-reset-misses-row-masks': ('C08', 'deform() resets a list of cached attributes that omits _x_indices/_z_indices',
+                                          'read is_css/Hx before deforming the same object', ''),
+    'C09-matching-merge-independent': ('C09', 'Matching.from_check_matrix(..., merge_strategy="independent"): identical columns are merged into a lighter edge',
+                                       'rotated planar code (duplicate columns), flip marginals above 0.2',
+                                       'first reported for a wrong reason (constructor form not followed -> "TOP stored"): from_check_matrix/merge_strategy are modelled (R09.1) and a value the analysis lost is never a violation'),
+    'C09-uf-sector-memo-keyed-by-shape': ('C09', 'UnionFindDecoder memoises sector corrections keyed by (H.shape, syndrome bytes): Hx and Hz collide',
+                                          'equal X and Z sector patterns on the torus',
+                                          'first run ended in exit 2 everywhere: memo-key completeness added to the effect analysis (C06 R06.3); C05/C07/C09 stay undecided on this change'),
+    'C10-initial-state-vertex-count': ('C10', 'get_initial_state zeroes the first prod(size) entries instead of the z_indices',
+                                       'Planar3DCode (fewer vertices than prod(size))', ''),
+    'C10-flip-edge-missing-face-none-index': ('C10', 'flip_edge uses stabilizer_index.get(...): a missing face indexes with None and inverts the whole state',
+                                              'open boundary edge with an odd number of missing faces', ''),
+    'C11-update-probabilities-alias-cached': ('C11', 'update_probabilities returns/modifies the cached px/pz arrays in place: the sampler\'s channel drifts',
+                                              'channel_update=True and more than one trial', 'reported by C06 R06.2; C05/C07 undecided (item store into a probability array)'),
+    'C11-n-runs-counted-after-run': ('C11', 'n_runs incremented once after _run returns instead of per trial',
+                                     'a run(k) interrupted part-way', ''),
+    'C12-save-remove-then-rename': ('C12', 'save_json removes the destination and then renames the temporary file',
+                                    'process killed between the two calls', 'missed at first: R12.1 no-delete obligation added'),
+    'C12-results-file-read-memoised': ('C12', 'results file parsed through an lru_cache(maxsize=1) helper: a second load in the same process is stale and shares lists',
+                                       'load, save, load again in one process', 'missed at first: R12.6 added (no memoised I/O on the load path; frozen values in panqec.simulation)'),
+    'C13-get-simulations-consumes-ranges': ('C13', 'list-of-ranges branch assigns data["ranges"] = sub_ranges on the caller\'s dict',
+                                            'the same specification object expanded twice', 'missed at first: second-expansion obligation added to R13.2'),
+    'C13-register-setdefault': ('C13', 'register_* use setdefault: registering a redefined class under a taken name is ignored',
+                                'register, redefine, register again', 'missed at first: rebinding obligation added to R13.1'),
+    'C14-tasks-per-input-hoisted': ('C14', 'tasks-per-input hoisted out of the core loop while the body still increments it', 'n_tasks % n_inputs != 0 and >= 2 cores', ''),
+    'C14-guard-cores-instead-of-tasks': ('C14', 'new guard raises when n_cores < n_inputs although n_nodes*n_cores >= n_inputs', 'multi-node run with few cores per node', ''),
+    'C15-read-entry-flatten-two-levels': ('C15', 'read_entry flattens two levels only: a merge of merged files loses trials', 'nesting depth 3',
+                                          'missed at first: R15.6 now nests the merged lists three and four deep'),
+    'C15-single-qubit-uint8-dot': ('C15', 'single-qubit rates via dot products of the uint8 indicator columns: counts wrap modulo 256',
+                                   'a pooled point with >= 256 trials of one class',
+                                   'missed at first: R15.5 now evaluates on the pipeline\'s dtype with 320 trials per class'),
+    'C16-zero-trial-estimate-zero': ('C16', 'p_est = n_fail/max(n_trials, 1): zero-trial entries enter the fit as p = 0 instead of NaN',
+                                     'results holding queued (zero-trial) entries', 'reported by C15 R15.3 (estimator formula)'),
+    'C16-fit-status-absolute-tolerance': ('C16', 'get_fit_status called with tol=ftol_std as an absolute tolerance: narrow valid intervals flagged as zero',
+                                          'threshold near 1e-3 with good statistics',
+                                          'missed at first: call-site arguments are resolved and a low-threshold entry added to R16.3'),
+    'C18-metropolis-carried-loglik': ('C18', 'get_next_error returns the proposal\'s log-likelihood with the kept previous error; _run carries it forward',
+                                      'a move accepted by the draw but discarded because decoding succeeds',
+                                      'missed at first: R18.3 now requires (error, log-likelihood of THAT error) on every returning path'),
+    'C18-log-of-product-underflow': ('C18', 'log form computed as log(prod(v)): -inf once the product underflows', 'heavy error on a large code', ''),
+    'C19-bias-filename-collision': ('C19', "file suffix str(eta).replace('.', ''): 1.5 and 15 share a file", 'ratio list containing x.y and xy',
+                                    'missed at first: a request with look-alike ratios added to R19.4'),
+    'C19-falsy-range-entries-dropped': ('C19', '_parse_parameters_range filters falsy entries: the rate 0.0 (and {}) are dropped',
+                                        'an error-rate grid containing 0', 'missed at first: grids starting at 0 added to R19.4 and R13.2'),
+    'C20-decoder-options-mutable-default': ('C20', 'decoder options collected in a mutable default dict: options of one /decode request leak into the next',
+                                            'BP-OSD or MBP request followed by any other decoder',
+                                            'missed at first: the interpreter now keeps mutable default arguments alive between calls; decode histories added to R20.4'),
+    'C20-colormap-entry-removed': ('C20', 'colormap entry removed while one gui-config.json entry still names it', 'Rotated Planar 2D, rotated picture', ''),
 }
 EXTRA_FILE = os.path.join(HERE, 'seeded', 'EXTRA.json')
 
